@@ -146,7 +146,11 @@ func (t *termer) term(v ssa.Value, ctx *Ctx) *Term {
 				return mk("field", name, v, ctx, t.term(whole, ctx))
 			}
 		}
-		return mk("field", name, v, ctx, t.term(x.X, ctx))
+		base := t.term(x.X, ctx)
+		if base.Op == "addrof" {
+			base = base.Args[0]
+		}
+		return mk("field", name, v, ctx, base)
 	case *ssa.Field:
 		st := derefStruct(x.X.Type())
 		name := fmt.Sprintf("#%d", x.Field)
@@ -329,6 +333,30 @@ func (t *termer) load(addr ssa.Value, v ssa.Value, ctx *Ctx) *Term {
 }
 
 func (t *termer) alloc(a *ssa.Alloc, ctx *Ctx) *Term {
+	// a spilled parameter / local copy: exactly one whole store and no field stores => &value
+	if !a.Heap || a.Comment != "complit" {
+		var whole []ssa.Value
+		partial := false
+		for _, r := range *a.Referrers() {
+			switch r := r.(type) {
+			case *ssa.Store:
+				if r.Addr == a {
+					whole = append(whole, r.Val)
+				}
+			case *ssa.FieldAddr:
+				for _, rr := range *r.Referrers() {
+					if s, ok := rr.(*ssa.Store); ok && s.Addr == r {
+						partial = true
+					}
+				}
+			}
+		}
+		if len(whole) == 1 && !partial {
+			if _, isParam := whole[0].(*ssa.Parameter); isParam {
+				return mk("addrof", "", a, ctx, t.term(whole[0], ctx))
+			}
+		}
+	}
 	name := types.TypeString(a.Type().(*types.Pointer).Elem(), shortQual)
 	if a.Comment != "" {
 		name += ":" + a.Comment
@@ -425,6 +453,8 @@ func (t *Term) String() string {
 		return "new(" + t.Name + ")"
 	case "load":
 		return "*" + t.Args[0].String()
+	case "addrof":
+		return "&" + t.Args[0].String()
 	case "conv":
 		return t.Name + "(" + t.Args[0].String() + ")"
 	case "assert":
@@ -535,4 +565,81 @@ func structInit(al *ssa.Alloc, field int) ssa.Value {
 		return whole[0]
 	}
 	return nil
+}
+
+// ReturnTerms: for a call term (or an extract of one) to a repo function, the terms of the
+// values returned at each return site, rendered with the parameters bound to this call.
+func (p *Prog) ReturnTerms(t *Term) []*Term {
+	idx := 0
+	call := t
+	if t.Op == "extract" {
+		fmtSscan(t.Name, &idx)
+		call = t.Args[0]
+	}
+	if call.Op != "call" {
+		return nil
+	}
+	cv, ok := call.V.(*ssa.Call)
+	if !ok {
+		return nil
+	}
+	callee := cv.Common().StaticCallee()
+	if callee == nil || !p.Expandable(callee) {
+		return nil
+	}
+	if call.Ctx != nil && call.Ctx.has(callee) {
+		return nil
+	}
+	d := 0
+	if call.Ctx != nil {
+		d = call.Ctx.Depth + 1
+	}
+	cctx := &Ctx{Parent: call.Ctx, Site: cv, Fn: callee, Depth: d}
+	var out []*Term
+	for _, b := range callee.Blocks {
+		if ret, ok := b.Instrs[len(b.Instrs)-1].(*ssa.Return); ok && idx < len(ret.Results) {
+			out = append(out, TermOf(spilledResult(ret, idx), cctx))
+		}
+	}
+	return out
+}
+
+// DeepContains: like Contains, but looks through calls to repo functions into the values they
+// return (depth-bounded), and through struct literals built in local allocations.
+func (p *Prog) DeepContains(t *Term, pred func(*Term) bool, depth int) bool {
+	if t == nil {
+		return false
+	}
+	found := false
+	t.Walk(func(x *Term) bool {
+		if found {
+			return false
+		}
+		if pred(x) {
+			found = true
+			return false
+		}
+		if depth > 0 && (x.Op == "call" || (x.Op == "extract" && x.Args[0].Op == "call")) {
+			for _, r := range p.ReturnTerms(x) {
+				if p.DeepContains(r, pred, depth-1) {
+					found = true
+					return false
+				}
+			}
+		}
+		if depth > 0 && x.Op == "alloc" {
+			if al, ok := x.V.(*ssa.Alloc); ok {
+				for _, vs := range litStoresOf(al) {
+					for _, v := range vs {
+						if p.DeepContains(TermOf(v, x.Ctx), pred, depth-1) {
+							found = true
+							return false
+						}
+					}
+				}
+			}
+		}
+		return true
+	})
+	return found
 }
